@@ -69,7 +69,7 @@ func (C02) Meta() core.Meta {
 		Real:       []string{"filippo.io/age Decrypt", "internal/stream Reader", "internal/format Parse", "armor Reader (rearmor runs)"},
 		Stub:       []string{"ciphertext source (SimSource) and its delivery schedule", "storage image (damaged copy of what SimDisk recorded)", "crypto/rand.Reader (tape)", "byzantine writer (reference model with the file key)"},
 		FaultKinds: []string{"fault.trunc", "fault.flip", "fault.insert", "fault.delete", "fault.extend", "fault.drop", "fault.dup", "fault.swap", "fault.move", "fault.misdirect", "fault.byzantine_seq"},
-		Probes:     []string{"probe.full_final_chunk", "probe.full_final_plus_trailing", "probe.error_from_Decrypt", "probe.error_after_release", "probe.byz_accepted_canonical", "probe.byz_rejected", "probe.trivial_same_image", "probe.empty_final_after_full", "probe.read_with_1MiB_buffer", "probe.byz_behind_255_to_257_chunks"},
+		Probes:     []string{"probe.full_final_chunk", "probe.full_final_plus_trailing", "probe.error_from_Decrypt", "probe.error_after_release", "probe.byz_accepted_canonical", "probe.byz_rejected", "probe.trivial_same_image", "probe.empty_final_after_full", "probe.read_with_1MiB_buffer", "probe.byz_behind_255_to_257_chunks", "probe.drained_by_io_copy"},
 	}
 }
 
@@ -401,6 +401,10 @@ func (e C02) Execute(plan interface{}, c *core.Ctx) *core.Verdict {
 			s := seam.NewSource(src, d, nil, nil)
 			c.Log.Add("case %s delivery=%s", what, d)
 			reads := p.Reads
+			if di == 2 {
+				reads = lib.ReadSched{Mode: "copy"} // drained by io.Copy (WriteTo path if the reader offers one)
+				c.Stats.Inc("probe.drained_by_io_copy")
+			}
 			if di == 1 && len(img) > 70000 {
 				reads = lib.ReadSched{Mode: "big"} // multi-chunk images are also read with a buffer holding several chunks
 				c.Stats.Inc("probe.read_with_1MiB_buffer")
